@@ -61,7 +61,7 @@ claim('C08', 'Lean 4 theorems on the ordered-map insert/drain model, on the time
       "windows) with its printed order compared with the model; each line must show the record's own fields. The text of a record is proved as well (FixedRenderSpec): every arm of "
       "FixedStruct::as_bytes is translated into a render program on every run (fields resolved from the struct definitions, the 14 writer macros pinned) and, for all 16 layouts, every read lies inside the one "
       "field the op names and inside the record (the line of record k depends on record k's bytes only), the line is label/value pieces with distinct labels and canonical values, shown + omitted = all fields, every "
-      "number is read with its declared type, the datetime shown is the sort-key field; tie: real FixedStruct::new + as_bytes on 8k-64k records per run, byte for byte. Known finding F12 (stray NUL after each record).",
+      "number is read with its declared type, the datetime shown is the sort-key field; tie: real FixedStruct::new + as_bytes on 8k-64k records per run, byte for byte. The record WALK is modelled too (FixedWalkSpec, facts regenerated from blockreader.rs / fixedstructreader.rs / s4.rs): read_data_to_buffer returns exactly d[beg,end) (proved for requests spanning at most two blocks, i.e. block size >= record size; the many-block arm is modelled and tied but not proved), preprocess_timevalues builds exactly the map of the non-null in-window records keyed (time, offset) with exact counters for every block size >= the time field, and the worker loop over process_entry_at emits one entry per key in ascending (time, offset) order with bytes d[fo,fo+sz) whether served from the score_file cache or read afresh, going on after a record FixedStruct::new rejects (walk_spec; C08_walk_is_stable_sort ties it to the stable sort); drop_entry never makes a later read wrong, streamed files keep their blocks (counter-model = F24); tie fwalk: real FixedStructReader::new / fileoffset_first / process_entry_at / summary on every layout x block sizes from 1 x windows x plain|gz, and direct read_data_to_buffer call sequences. Known finding F12 (stray NUL after each record).",
       TB + "Modelled not verified: layout detection (score_file); layouts other than Linux utmpx / acct_v3 / lastlog are tied in-process only (time value and text).",
       "DESIGN.md §6 C08")
 
@@ -136,7 +136,7 @@ claim('C19', 'Lean 4 theorems on the accounting model of processing_loop/Summary
       "Machine-checked over any sequence of printed messages: accounted bytes = length of stdout with escapes removed (= literal stdout length with --color never), per-file bytes + "
       "separators + added newlines = total, message counts per kind exact, lines = lines of text-log messages, first/last = min/max printed instants. The unconditional byte statement is false with "
       "colour (F6, proved). The printers' byte accounting is modelled down to the 2056-byte buffer (capacity, macro counter updates and the order of every returned (printed, flushed) tuple regenerated "
-      "from printers.rs): for every message and option set the returned `printed` equals the bytes written (C19_printed_eq_written; swapped-tuple counter-models). Tie: component prt (real print_sysline, "
+      "from printers.rs): for every message and option set the returned `printed` equals the bytes written (C19_printed_eq_written; swapped-tuple counter-models). The accounting itself is REGENERATED (SummarySpec): summaryprint_update_dt / the four summaryprint_update_* / the map get-or-insert / the four arms of processing_loop's match (print call and order of its result, separator and added-newline writes, every counter update, the update calls with their arguments and guards) are translated to data on every run, the interpreter of that data is proved EQUAL to the hand model (summary_skeleton_is_model), so the C19 statements hold of the source's program (C19_*_src), --summary leaves the writes unchanged (C19_stdout_unchanged_src), and seven one-token edits are proved wrong on two-message runs (overwrite instead of max = seeded C19-b, ...). Reader-side first/last/accepted bookkeeping of EvtxReader::analyze and FixedStructReader is regenerated and proved min/max/count of the in-window records (SummaryReaderSpec). Tie: component summ (the real SummaryPrinted update functions on real Sysline/FixedStruct/Evtx/JournalEntry values, all counters and both datetimes), component prt (real print_sysline, "
       "messages larger than the buffer) and: each run is made with and without --summary; stdout must be identical, and the parsed totals/per-file numbers/first-last/-a -b echo must equal the model's and the bytes on stdout.",
       TB + "the summary's `flushed` total is not compared end to end; the layout of the summary text is not modelled (parsers key on the labels).",
       "DESIGN.md §6 C19")
@@ -146,9 +146,8 @@ claim('C14', 'Lean 4 theorems on a model of process_dt / the relative-offset mat
       "instant would, both-'@' and after>before are rejected, ambiguous zone names are rejected, with the anchors now present in the source every string outside the relative grammar is refused "
       "by the relative branch (the unanchored counter-model documents the defect repaired by this work); every one of the 76 pattern rows resolves EVERY value of its grammar (year 0000-9999, valid date, time incl. :60, any %3f/%6f digits, numeric zones in all accepted spellings, every unambiguous zone name, any %s up to "
       "8210266790399) to the instant computed from the calendar arithmetic, for every --tz-offset inside +-24h (C14_abs, all 76 rows, unfolding the generated rows and zone table); explicit zone wins, zone-less is read at "
-      "--tz-offset, bare date = 00:00:00; for the 11 zone-less rows of the help text no earlier row reads any of their values, so process_dt as a whole returns that instant (C14_no_steal); for the other 65 rows first-match "
-      "agreement is decided on representatives only (partial). '+epoch' is only correct at --tz-offset +00:00 (F21, proved). Tie: the real process_dt/string_wdhms_to_duration/cli_process_tz_offset are evaluated in-process (H2) on the "
-      "enumerated grammar plus near-miss mutants and compared with the model; 354 real runs compare --summary's resolved bounds and exit status with resolveAB.",
+      "--tz-offset, bare date = 00:00:00; process_dt as a WHOLE (rows tried in table order, first that parses wins) returns that instant for every row and every value (C14_first_match_full, all 76 rows: all 2850 ordered pairs (earlier row, later row) are settled on the regenerated table - 2754 'the earlier row refuses every value of the later one', 96 'refuses, or reads it to the same chrono Parsed under the same has_tz', 0 open - by a computable analysis over the parsed pattern items, decided in the kernel and lifted by soundness lemmas; counter-model: flipping has_tz of one row makes another row lose its instant). '+epoch' is only correct at --tz-offset +00:00 (F21, proved). Tie: the real process_dt/string_wdhms_to_duration/cli_process_tz_offset are evaluated in-process (H2) on the "
+      "enumerated grammar plus near-miss mutants and compared with the model; 354 real runs compare --summary's resolved bounds and exit status with resolveAB; for each of the 96 stealing pairs values of the later row x zone spellings x --tz-offset go through the real process_dt, the model and an independent calendar oracle (cli-dt-nosteal).",
       TB + "chrono parse_from_str and the regex crate are mirrored by hand for the specifiers/constructs that occur (validated by the 70k-value correspondence).",
       "DESIGN.md §6 C14")
 
@@ -161,7 +160,7 @@ claim('C05', 'Lean 4 theorems on the per-container block-assembly loops (all chu
       "search on such a file is linear and gets the plain file's blocks (C05_search_on_streamed_ok) while a bisection would lose blocks (binary_on_stream_loses), and the backwards year pass is "
       "answered correctly because drops are disabled (C05_yearless_keep). Tie: real BlockReader on containers built in the harness (gz levels/flush points, xz, lz4 frames, "
       "tar variants, python bz2/pax) under several request orders; the binary on plain vs packed text logs (also multi-block at small --blocksz with windows, and year-less), "
-      "accounting files (F24 repaired in fd997268), the evtx sample and a journal. Known finding F23 (third-party bz2 decoder).",
+      "accounting files (F24 repaired in fd997268), the evtx sample and a journal. The copy loops of decompress_to_ntf stop only on a read of 0 bytes (fact regenerated; extract_eq unfolds it; counter-model short_read_stop_truncates = seeded C05-d). WHICH member of a .tar a listed entry reads is modelled (TarMemberSpec: accessor, comparison, first-match rule, split point and no-match result of the listing and both lookup sites regenerated): both lookups deliver the bytes of the first entry whose lossy path equals the sub-path after the last '|'; with pairwise distinct entry names the k-th listed entry reads the k-th regular member; never a wrong member on a miss; the unconditional statement is false (known finding F33: duplicate member paths, and three further shapes proved); tie tarm (real tar files written header by header through process_path, BlockReader and decompress_to_ntf). Known findings F23 (third-party bz2 decoder), F33.",
       TB + "flate2, bzip2-rs, lz4_flex, lzma-rs, tar decode correctly (F23 is a decoder failure); real chunk sizes are not observed (the theorem covers all chunkings).",
       "DESIGN.md §6 C05")
 
